@@ -49,8 +49,10 @@ HOOK_FLOORS = {"quick": {"parser_init": 10000, "nested_parser_init": 1000},
                "thorough": {"parser_init": 500000,
                             "nested_parser_init": 100000}}
 
-SCHEMA = ("<schema><multikey name='k' attribute='k'/><key name='o'/>"
-          "</schema>")
+SCHEMA = ("<schema><sectiontype name='s'><multikey name='k' attribute='k'/>"
+          "<multisection type='s' name='*' attribute='ss'/></sectiontype>"
+          "<multikey name='k' attribute='k'/><key name='o'/>"
+          "<multisection type='s' name='*' attribute='ss'/></schema>")
 # a load with a command-line override that has nothing to do with the
 # definitions: the namespace rules are the same
 OVERRIDE = "with-override"
@@ -82,6 +84,10 @@ EXTRA_STEPS = [("d", "$b", "x"), ("d", "${a}", "y"), ("d", "$$a", "x"),
                # an environment reference before a reference to a definition
                ("u", "(ZCV_SET)/$a"), ("u", "a $(ZCV_SET) ${b}"),
                ("d", "c", "$(ZCV_SET)$a"), ("u", "a$(ZCV_SET)"),
+               # a definition whose expansion begins / ends with a blank
+               # (the reference in it expands to nothing)
+               ("d", "b", "$(ZCV_EMPTY) x"), ("d", "b", "x $(ZCV_EMPTY)"),
+               ("d", "b", "x"), ("u", "{b}|"), ("u", "b|$b"),
                # names of 32, 40 and 70 characters (one a prefix of the other)
                ("d", "n" + "m" * 39, "x"), ("u", "n" + "m" * 39),
                ("d", "n" + "m" * 31, "p"), ("u", "{n" + "m" * 69 + "}"),
@@ -111,6 +117,9 @@ def step_line(st):
         return "k $" + st[1]
     if st[0] == "i":
         return "%include " + st[1]
+    if st[0] == "is":
+        # the include stands inside a section: one namespace all the same
+        return "<s>\n  %include " + st[1] + "\n</s>"
     raise ValueError(st)
 
 
@@ -125,6 +134,16 @@ def arrangements(n):
             for i2 in range(i, j):
                 for j2 in range(i2 + 1, j + 1):
                     yield (i, j, i2, j2)
+
+
+def in_sections(files, which=(True, True)):
+    """The same files with their %include lines put inside a section."""
+    out = {}
+    for name, sts in files.items():
+        wrap = which[0] if name == "main.conf" else which[1]
+        out[name] = [("is", s[1]) if (s[0] == "i" and wrap) else s
+                     for s in sts]
+    return out
 
 
 def build_files(steps, arr):
@@ -150,7 +169,7 @@ def render(files):
 
 
 def expected(texts):
-    st = refparse.State(env={"ZCV_SET": "zcv-env-value"})
+    st = refparse.State(env={"ZCV_SET": "zcv-env-value", "ZCV_EMPTY": ""})
 
     def inc(parser, section, target, lineno):
         if target not in texts:
@@ -163,8 +182,22 @@ def expected(texts):
         p.parse(texts["main.conf"])
     except refparse.Stop as stop:
         return stop.outcome, None, st.defines
-    vals = [e[3] for e in st.events if e[0] == "key"]
-    return ("ok",), vals, st.defines
+    # values in a canonical order: a section's own keys, then its
+    # sub-sections one after the other (the top level counts as section 0)
+    keys, kids = {0: []}, {0: []}
+    for e in st.events:
+        if e[0] == "open":
+            keys[e[1]], kids[e[1]] = [], []
+            kids[e[2]].append(e[1])
+        elif e[0] == "key":
+            keys[e[1]].append(e[3])
+
+    def flat(n):
+        out = list(keys[n])
+        for c in kids[n]:
+            out.extend(flat(c))
+        return out
+    return ("ok",), flat(0), st.defines
 
 
 class Hook:
@@ -225,7 +258,12 @@ def observe(schema, path, hook, loader=None):
         return ("config-error", type(e).__name__), None
     except Exception as e:  # noqa
         return ("internal", type(e).__name__, str(e)[:100]), None
-    return ("ok",), list(cfg.k)
+    def flat(sec):
+        out = list(sec.k)
+        for sub in sec.ss:
+            out.extend(flat(sub))
+        return out
+    return ("ok",), flat(cfg)
 
 
 def agrees(exp_out, exp_vals, obs_out, obs_vals):
@@ -356,6 +394,7 @@ def run_shard(ctx):
     for n in ("a", "A", "b", "B", "c", "C"):
         os.environ[n] = "FROM-ENVIRONMENT"
     os.environ["ZCV_SET"] = "zcv-env-value"
+    os.environ["ZCV_EMPTY"] = ""
     schema = ZConfig.loadSchemaFile(io.StringIO(SCHEMA))
     hook = Hook(ctx.res)
     hook.install()
@@ -381,6 +420,11 @@ def run_shard(ctx):
                     elif ai % 3 == 1:
                         run_case(ctx, schema, hook, files, "enum-override",
                                  dirpath, OVERRIDE)
+                    elif len(files) > 1:
+                        run_case(ctx, schema, hook, in_sections(
+                            files, [(True, True), (True, False),
+                                    (False, True)][ai // 3 % 3]),
+                                 "enum-in-section", dirpath)
         rng = ctx.rng("random")
         for i in range(RANDOM[ctx.tier] // ctx.nshards):
             files = random_case(rng)
@@ -389,6 +433,9 @@ def run_shard(ctx):
                      shared)
             run_case(ctx, schema, hook, files, "random-override", dirpath,
                      OVERRIDE)
+            if len(files) > 1:
+                run_case(ctx, schema, hook, in_sections(files),
+                         "random-in-section", dirpath)
     finally:
         hook.remove()
     ctx.res.info["bounds"] = {"steps": len(STEPS),
@@ -406,6 +453,8 @@ def finalize(m, tier):
 def replay(ctx, case):
     import io
     import ZConfig
+    os.environ["ZCV_SET"] = "zcv-env-value"
+    os.environ["ZCV_EMPTY"] = ""
     schema = ZConfig.loadSchemaFile(io.StringIO(SCHEMA))
     hook = Hook(ctx.res)
     hook.install()
